@@ -4,6 +4,11 @@ import re
 PROOF = {'C01', 'C02', 'C03', 'C04', 'C05', 'C06', 'C07', 'C08', 'C09', 'C14', 'C15', 'C16', 'C17', 'C18', 'C19'}
 
 
+# a property about one class family is served by that family's units (shared aliases tag more)
+CLASS_FILTER = {'C01': r'^LDG_', 'C02': r'^LUG_', 'C03': r'^L[DU]G_(VLabel|uint|real)_', 'C04': r'^(DM|UM)__',
+                'C05': r'^(DW|UW)__'}
+
+
 def level_of(prop):
     return 'proof' if prop in PROOF else 'model_checking'
 
@@ -34,6 +39,13 @@ def units_for(prop, sp, index, tier='quick'):
             ok = is_const_unit(clauses)     # empty frame on every const entry point
         else:
             ok = serves(prop, fname, clauses)
+        if ok and prop in CLASS_FILTER and not re.match(CLASS_FILTER[prop], fname):
+            ok = False                      # the property is about one class family; callees come in by closure
+        if ok and tier == 'quick' and re.match(r'^L[DU]G_(uint|real)_', fname):
+            # quick tier: the base-class proofs are served by the opaque label and NoLabel (A-PARAM); the
+            # unsigned/double instantiations are enforced where a multigraph / weighted unit relies on them
+            # (closure below) and, all of them, in the thorough tier
+            ok = False
         if ok:
             out.append(fname)
     # self-contained projections: every contract a served unit relies on (replaced callees, transitively
